@@ -229,6 +229,14 @@ func vhSignChain() {
 	vAssert(vSigVerifies(rootArt.Certificate, rootArt.Certificate.TBSCertificate.PublicKey), "root signature does not verify under its own key")
 	vSameBytes(vMustDer(rootArt.Certificate.TBSCertificate.Issuer), vMustDer(rootArt.Certificate.TBSCertificate.Subject), "root issuer DN differs from its subject DN")
 
+	// an imported or older issuer certificate need not carry the subject its
+	// configuration says today: the certificate is what children must name
+	if vChoose("rootCfgRenamed", 2) == 1 {
+		renamed := *rootCfg
+		renamed.Subject = vDN("renamed", true)
+		d.ents[0].cfg = &renamed
+	}
+
 	subKA := vKeyAlgChoices[vChoose("subKey", nk)]
 	s := vChoose("subSig", len(vSigRefs))
 	exts := []config.ExtensionConfig{v1.SubjectKeyIdentifier{Content: "hash"}, v1.AuthKeyId{Content: v1.AuthKeyIdContent{Id: "hash"}}}
